@@ -468,7 +468,16 @@ impl RateLimiter {
 
         // We add `new` to `capacity`, subtract one for returning `true` from here,
         // then make sure it does not exceed a maximum of `MAX_BURST`, then store it.
-        self.capacity = Ord::min(MAX_BURST as u128, (self.capacity as u128) + new - 1) as u8;
+        let capacity = (self.capacity as u128) + new - 1;
+        if capacity >= MAX_BURST as u128 {
+            // The bucket is full: time that could not be converted into capacity is not
+            // saved for later either, or a burst could exceed `MAX_BURST + 1` draws.
+            self.capacity = MAX_BURST;
+            self.prev = now;
+            return true;
+        }
+
+        self.capacity = capacity as u8;
         // Store `prev` for the next iteration after subtracting the `remainder`.
         // Just use `unwrap` here because it shouldn't be possible for this to underflow.
         self.prev = now
